@@ -570,6 +570,11 @@ def run_history(hist):
                         k_ = (c["fn"], repr(plain_value(umod, vals, c)), loc)
                         if k_ in live:
                             damaged.add(k_); stats["damaged_entries"] += 1
+                        if c["fn"] in ("part", "part2", "part3"):
+                            # the partials share one place in the store and hash their call arguments alike: the file that
+                            # was hit may be the entry of another partial -- all their live entries there are suspect
+                            for k2 in [k2 for k2 in live if k2[0] in ("part", "part2", "part3") and k2[2] == loc]:
+                                damaged.add(k2)
                     continue
                 if loc:
                     stats["calls_at_second_location"] += 1
